@@ -342,9 +342,9 @@ public:
       if (lba >= sectors_.size())
 	return std::nullopt;
       SectorAddress addr;
-      const auto sectors_per_side = geom_.cylinders * geom_.sectors;
-      addr.head = lba / sectors_per_side;
-      lba = lba % sectors_per_side;
+      // This adapter presents one side of the disc, and the sector
+      // headers on that side carry its side number.
+      addr.head = static_cast<unsigned char>(side_);
       addr.cylinder = lba / geom_.sectors;
       addr.record = lba % geom_.sectors;
       std::vector<Sector>::const_iterator it = find_sector(addr);
